@@ -49,7 +49,7 @@ SHAPES = [(), (0,), (1,), (3,), (2, 3), (2, 1, 3), (1, 3), (3, 1)]
 # i8big: int64 values beyond 2^53 (exact in int64, not in float64); used for construction, indexing, arithmetic and copies
 KIND_INT = {'f8': (False, False), 'i8': (True, True), 'list': (False, False), 'listint': (True, True),
             'mixed': (True, False), 'npscalar': (False, True), 'i8big': (True, True)}
-KINDS_QUICK = ['f8', 'i8', 'i8big']
+KINDS_QUICK = ['f8', 'i8', 'i8big', 'mixed']
 KINDS_ALL = ['f8', 'i8', 'list', 'listint', 'mixed', 'npscalar', 'i8big']
 BIG = 2 ** 53
 CENTRES = [[0, 0], [1.5, -2.0], [-7.25, 300.0]]
@@ -227,7 +227,7 @@ def _held(v):
     return ('other', None, repr(v))
 
 
-def _problem(p, shape, X, Y, tol=None):
+def _problem(p, shape, X, Y, tol=None, kinds=False):
     """None when PixCoord ``p`` holds the reference (exactly, or within ``tol``); else a message.
 
     A scalar coordinate may hold Python numbers or numpy scalars (both are "scalar"); a 0-d
@@ -249,6 +249,11 @@ def _problem(p, shape, X, Y, tol=None):
             g, e = flat(h[2]), flat(E)
         if len(g) != len(e):
             return f'{name} holds {len(g)} values, expected {len(e)}'
+        # integers stay integers (they may be used as indices): the held kind is that of the reference values
+        if kinds and tol is None and e and all(isinstance(b, int) and not isinstance(b, bool) for b in e):
+            kind = np.asarray(v).dtype.kind
+            if kind not in 'iu':
+                return f'{name} holds dtype {np.asarray(v).dtype} although every reference value is an integer ({e[0]!r}, ...)'
         for k, (a, b) in enumerate(zip(g, e)):
             bad = (not (a == b)) if tol is None else (not (abs(a - b) <= tol))
             if bad:
@@ -309,7 +314,7 @@ def check_ctor(res, ctx):
     shape = ctx.shape
     if shape != ctx.sx or shape != ctx.sy:
         res.nontriv(('ctor', case))
-    msg = _problem(p, shape, ctx.X, ctx.Y)
+    msg = _problem(p, shape, ctx.X, ctx.Y, kinds=True)
     if msg:
         _V(res, 'ctor_values', case, f'constructed from x{ctx.sx}, y{ctx.sy} ({ctx.kind}): {msg}',
            {'shape': list(shape), 'x': ctx.X, 'y': ctx.Y}, repr(p))
@@ -320,7 +325,7 @@ def check_ctor(res, ctx):
     if not ok:
         _V(res, 'unexpected_exception', case, f'PixCoord(x=, y=) raised {_ex(pk)}')
     else:
-        msg = _problem(pk, shape, ctx.X, ctx.Y)
+        msg = _problem(pk, shape, ctx.X, ctx.Y, kinds=True)
         if msg:
             _V(res, 'ctor_values', case, f'keyword construction: {msg}')
     # len
@@ -476,7 +481,7 @@ def check_index(res, ctx, specs):
             eshape, EX, EY = (), np.asarray(rx).item(), np.asarray(ry).item()
         else:
             eshape, EX, EY = tuple(rx.shape), rx.tolist(), ry.tolist()
-        msg = _problem(got, eshape, EX, EY)
+        msg = _problem(got, eshape, EX, EY, kinds=True)
         if msg:
             _V(res, 'index_wrong', case, f'[{spec}] on shape {shape} ({ctx.kind}): {msg}',
                {'shape': list(eshape), 'x': EX, 'y': EY}, repr(got))
@@ -507,7 +512,7 @@ def check_iter(res, ctx):
            shape[0], len(items))
         return
     for i, it in enumerate(items):
-        msg = _problem(it, tuple(shape[1:]), ctx.X[i], ctx.Y[i])
+        msg = _problem(it, tuple(shape[1:]), ctx.X[i], ctx.Y[i], kinds=True)
         if msg:
             _V(res, 'iter_wrong', case, f'item {i} of iteration over shape {shape}: {msg}',
                {'x': ctx.X[i], 'y': ctx.Y[i]}, repr(it))
@@ -788,7 +793,7 @@ def check_copy_eq(res, ctx):
             if not ok:
                 _V(res, 'unexpected_exception', case, f'{name} raised {_ex(q)}')
                 continue
-            msg = _problem(q, shape, ctx.X, ctx.Y)
+            msg = _problem(q, shape, ctx.X, ctx.Y, kinds=True)
             if msg:
                 _V(res, 'copy_values', case, f'{name} of shape {shape}: {msg}', None, repr(q))
                 continue
@@ -804,7 +809,7 @@ def check_copy_eq(res, ctx):
                     arr[...] = 12345
                 except ValueError:
                     continue        # read-only copy: cannot be mutated, trivially independent
-                msg = _problem(p, shape, ctx.X, ctx.Y)
+                msg = _problem(p, shape, ctx.X, ctx.Y, kinds=True)
                 if msg:
                     _V(res, 'copy_not_independent', case,
                        f'writing to {name}.{comp} changed the original: {msg}', None, repr(p))
@@ -817,7 +822,7 @@ def check_copy_eq(res, ctx):
                     arr[...] = -777
                 except ValueError:
                     continue
-                msg = _problem(q2, shape, ctx.X, ctx.Y)
+                msg = _problem(q2, shape, ctx.X, ctx.Y, kinds=True)
                 if msg:
                     _V(res, 'copy_not_independent', case,
                        f'writing to the original {comp} changed its {name}: {msg}', None, repr(q2))
